@@ -35,7 +35,7 @@ __all__ = [
     "RxUnsupported", "Pattern", "Lang", "CaptureWitness",
     "included", "disjoint", "equivalent", "difference", "union", "intersect", "complement",
     "group_contents_included", "capture_exact", "ambiguity", "simulate", "stats",
-    "set_merge", "get_merge", "atoms_of",
+    "set_merge", "get_merge", "atoms_of", "stepper", "spans_of", "partition_of",
 ]
 
 _METHODS = ("match", "fullmatch", "search")
@@ -56,7 +56,7 @@ class Pattern:
         self.multi_groups = parsed.multi_groups      # groups inside a repeat with max > 1
         self._ast = parsed.ast
         self._nfa: Dict[str, _pnfa.PNFA] = {}
-        self._dfa: Dict[int, Tuple[Partition, _dfa.DFA]] = {}
+        self._dfa: Dict[Tuple[int, str], Tuple[Partition, _dfa.DFA]] = {}
 
     # -- plumbing
     def key(self) -> Tuple[str, str]:
@@ -90,6 +90,19 @@ class Pattern:
 
     def __repr__(self) -> str:
         return f"Pattern({self.pattern!r}, {self.method!r})"
+
+    # language algebra (results are ``Lang`` objects)
+    def __or__(self, other):
+        return union(self, other)
+
+    def __and__(self, other):
+        return intersect(self, other)
+
+    def __sub__(self, other):
+        return difference(self, other)
+
+    def __invert__(self):
+        return complement(self)
 
 
 # --------------------------------------------------------------------------- languages
@@ -243,6 +256,11 @@ def equivalent(a, b) -> Optional[str]:
     return _lang(a).equals(b)
 
 
+def partition_of(*patterns: Pattern) -> Partition:
+    """The common atom partition of the patterns."""
+    return _partition(patterns)
+
+
 def atoms_of(*patterns: Pattern) -> List[str]:
     """Representative characters of the common atom partition of the patterns."""
     return list(_partition(patterns).reps)
@@ -274,6 +292,17 @@ def simulate(p: Pattern, s: str, group0: bool = False):
     return None if regs is None else _spans(regs, p.ngroups, group0)
 
 
+def stepper(p: Pattern, part: Optional[Partition] = None) -> _capture.Stepper:
+    """Incremental form of ``simulate`` (same code path) for bulk enumeration:
+    see ``capture.Stepper``.  ``spans_of`` converts its register tuples."""
+    part = part or _partition([p])
+    return _capture.Stepper(p.nfa(), part, p.ngroups)
+
+
+def spans_of(p: Pattern, regs, group0: bool = False):
+    return None if regs is None else _spans(regs, p.ngroups, group0)
+
+
 def _check_single(p: Pattern, groups: Iterable[int], what: str) -> None:
     bad = sorted(set(groups) & set(p.multi_groups))
     if bad:
@@ -294,6 +323,8 @@ def ambiguity(spec: Pattern, groups) -> Optional[str]:
     """Is ``spec`` -- read as a *fullmatch* language -- ambiguous w.r.t. the spans
     of ``groups``?  Returns a shortest string with two parses that give different
     spans to one of the groups (set vs. unset counts as different), else ``None``."""
+    if isinstance(groups, (str, int)):
+        groups = [groups]
     nums = [spec.group_number(g) for g in groups]
     _check_single(spec, nums, "ambiguity")
     part = _partition([spec])
